@@ -57,7 +57,8 @@ TRUSTED = ["hand model lean/AwsVerif/Model/Lookup3.lean (byte-wise hashlittle2 +
            "props/c02_gen.py: s_tolower_table, FNV constants, the max_load_factor literal and the lookup3 rotation amounts / basis / "
            "initial values are regenerated from /repo on every run (shape of mix/final/hashlittle2 checked against the modelled template)",
            "props/c02_gen.py state_valid(): the integer conjuncts of hash_table_state_is_valid are cut out of hash_table.c and re-translated "
-           "through gen/cfun.py into Gen/HashValid.lean on every run (theorem c02_state_valid: they hold after every program)",
+           "through gen/cfun.py into Gen/HashValid.lean on every run (theorem c02_state_valid: they hold after every program); iter_valid(): the "
+           "tail of aws_hash_iter_is_valid likewise (theorem c02_iter_valid: it accepts what aws_hash_iter_begin / _next return)",
            "harness/hashtable.c (user hash = per-case table on key identity, equality on identity, in-harness invariant monitor)"]
 ASSUMPTIONS = ["the user's hash function is a function of what the user's equality compares (hash_fn consistent with equals_fn)",
                "iterators are not used across a structural change made through another route (API contract)",
